@@ -69,7 +69,7 @@ class PandasIndexFeaturesMixin:
 
         if strict:
             # Check for variables in `fill_values` but not in the object
-            undefined_variables = set(fill_values.keys()) - set(self.names)
+            undefined_variables = set(fill_values.keys()) - set(self.index)
             if undefined_variables:
                 raise KeyError(
                     f"Found {len(undefined_variables)} undefined variable(s) "
@@ -103,13 +103,21 @@ class PandasIndexFeaturesMixin:
             **{k: 'nearest' for k in as_list(nearest_)},
         }  # fmt: skip
 
-        # Use the base class version of `reindex()` to alter the `span`...
-        reindexed = super().reindex(span=span)
+        # Use the base class version of `reindex()` to alter the `span` and to
+        # fill new periods with the (dtype-aware) fill values...
+        reindexed = super().reindex(
+            span=span, fill_value=fill_value, strict=strict, **fill_values
+        )
 
         # ...then adjust the values using the `pandas` `Series.reindex()`
         # method
         for name in reindexed.names:
             fill_method = methods.get(name, method)
+
+            # No fill method for this variable: the base class result (old
+            # values by label, dtype-aware fill values elsewhere) stands
+            if fill_method is None:
+                continue
 
             fill_limit = None
             fill_tolerance = None
